@@ -167,7 +167,10 @@ def body(e, L, cfg):
         r, _ = e.check(z3.Or([a != z3.BoolVal(z3.is_true(m.eval(a, model_completion=True))) for a in free]) if free else z3.BoolVal(False))
         if r != "unsat":
             raise core.Inconclusive("path does not pin the arcs")
-        val = L.approximate_capacity(symnp.array(rows), repeats=1)
+        acc_c = symnp.array(rows)
+        val = L.approximate_capacity(acc_c, repeats=1)
+        if acc_c.tolist() != rows:
+            return {"status": "viol", "why": "approximate_capacity modified its accessor argument", "cex": {"kind": "capacity", "acc": rows, "repeats": 1, "want": "unchanged"}}
         if core.is_sym(val) or abs(float(val) - math.log2(d)) > 1e-12:
             return {"status": "viol", "why": "deterministic mode returns %r, not log2 %d, on a graph whose live vertices all have %d live successors" % (val, d, d),
                     "cex": {"kind": "capacity", "acc": rows, "repeats": 1}}
@@ -215,6 +218,9 @@ def body(e, L, cfg):
         r = L.approximate_capacity(acc, repeats=1)
     except Budget:
         return {"status": "ok", "sample": {"early": "needs more than two iterations on this path"}}
+    except core.Inconclusive as ex:
+        # this side only hunts for witnesses of the known finding; when the solver gives up nothing is claimed either way
+        return {"status": "ok", "sample": {"early": "bug hunt gave up on this path: %s" % ex}}
     finally:
         acc.budget = None
     if not symnp.LOG_ARGS:
